@@ -86,10 +86,11 @@ Definition mon_on_time (c : da_case) : bool :=
         if i_status x =? ST_CP then
           let reach := threshold_reached p x (s_invs pre) in
           let over := i_ts x + pr_cp p <=? now in
+          (* a reached threshold wins over an expired period (end-blocker phase order: to-challenging
+             before to-verified): a challenge accepted inside the window is never skipped *)
           match reach, over with
-          | true, false => i_status y =? ST_CH
+          | true, _ => i_status y =? ST_CH
           | false, true => i_status y =? ST_VER
-          | true, true => (i_status y =? ST_CH) || (i_status y =? ST_VER)
           | false, false => i_status y =? ST_CP
           end
         else if i_status x =? ST_CH then
@@ -146,9 +147,58 @@ Definition trig_phantom_shards (c : da_case) : bool :=
   | _ => false
   end.
 
+(* ---------- the state machine over the history ----------
+   A C07 case carries a ghost: (uri, status, timestamp) of every item as it stood after the previous
+   block end of the same application (empty before the first one).
+   7. between two block ends nothing moves (the pre-state of every operation shows the ghost's status
+   and timestamp for every item the ghost knows); at a block end every move and every removal starts
+   from the status and timestamp the item had after an EARLIER block end, its own deadline counted
+   from that timestamp has passed (expiry, tally, pruning), and an item published in this very block
+   can only go to challenging (so no item makes two moves in one block, and no deadline is evaluated
+   against a status set in the same block). *)
+Inductive c07_case := HCase (ghost : list (Z * Z * Z)) (c : da_case).
+
+Fixpoint ghost_of (u : Z) (g : list (Z * Z * Z)) : option (Z * Z) :=
+  match g with
+  | [] => None
+  | (u', st, ts) :: g' => if u' =? u then Some (st, ts) else ghost_of u g'
+  end.
+
+Definition mon_history (h : c07_case) : bool :=
+  let '(HCase g (Case pre _ o now r post _)) := h in
+  let p := s_prm pre in
+  forallb (fun x =>
+    match ghost_of (i_uri x) g with
+    | Some (sg, tg) => (i_status x =? sg) && (i_ts x =? tg)
+    | None => true
+    end) (s_items pre)
+  &&
+  (if is_msg o || negb (r =? 0) then true else
+   forallb (fun x =>
+     let moved := match find_item (i_uri x) (s_items post) with
+                  | Some y => if i_status y =? i_status x then None else Some (Some (i_status y))
+                  | None => Some None
+                  end in
+     match moved with
+     | None => true
+     | Some dest =>
+         match ghost_of (i_uri x) g, dest with
+         | None, Some st' => (i_status x =? ST_CP) && (st' =? ST_CH)       (* published in this block *)
+         | None, None => false
+         | Some (sg, tg), None => terminal sg && (tg + retention p sg <=? now)
+         | Some (sg, tg), Some st' =>
+             if sg =? ST_CP then (st' =? ST_CH) || ((st' =? ST_VER) && (tg + pr_cp p <=? now))
+             else if sg =? ST_CH then terminal st' && (tg + pr_pp p <=? now)
+             else false
+         end
+     end) (s_items pre)).
+
 Definition c07_check (c : da_case) : list Z :=
   flag 0 (corr_state c) ++ flag 1 (mon_transitions c) ++ flag 2 (mon_acceptance c) ++
   flag 3 (mon_on_time c) ++ flag 4 (mon_no_overdue c) ++ flag 5 (mon_failed_msg c) ++
   flag 6 (mon_real_shards c) ++ flag 101 (negb (trig_phantom_shards c)).
 
-Definition run := run_cases c07_check.
+Definition c07_hcheck (h : c07_case) : list Z :=
+  let '(HCase g c) := h in c07_check c ++ flag 7 (mon_history h).
+
+Definition run := run_cases c07_hcheck.
